@@ -21,6 +21,7 @@ type specVar struct {
 }
 
 type SpecCtx struct {
+	hyp     bool // this position is on the hypothesis side of the query being built
 	e       *Exec
 	st      *State
 	old     *State
@@ -29,6 +30,7 @@ type SpecCtx struct {
 	current bool // identifiers denote current values of local cells (loop invariants, sites) rather than entry values
 	depth   int
 	callArgs bool
+	underNot bool
 }
 
 // ghost array type: element type; value is an SMT array term indexed by idxSort
@@ -51,8 +53,16 @@ func (e *Exec) pkgTypes() *types.Package {
 	return e.lemmaPkg
 }
 
+// asHyp evaluates f with clause evaluation in hypothesis mode.
+func (e *Exec) asHyp(f func() *Node) *Node {
+	saved := e.hypMode
+	e.hypMode = true
+	defer func() { e.hypMode = saved }()
+	return f()
+}
+
 func (e *Exec) evalClause(c *Clause, st, old *State, extra map[string]specVar) *Node {
-	ctx := &SpecCtx{e: e, st: st, old: old, vars: map[string]specVar{}, pkg: e.pkgTypes()}
+	ctx := &SpecCtx{e: e, st: st, old: old, vars: map[string]specVar{}, pkg: e.pkgTypes(), hyp: e.hypMode}
 	for k, v := range extra {
 		ctx.vars[k] = v
 	}
@@ -82,7 +92,9 @@ func (c *SpecCtx) fail(format string, args ...interface{}) {
 func (c *SpecCtx) eval(n *SpecNode) (Value, types.Type) {
 	switch n.Kind {
 	case "imp":
+		c.hyp = !c.hyp
 		l, _ := c.eval(n.L)
+		c.hyp = !c.hyp
 		r, _ := c.eval(n.R)
 		return Implies(l.(*Node), r.(*Node)), types.Typ[types.Bool]
 	case "iff":
@@ -122,6 +134,9 @@ func (c *SpecCtx) eval(n *SpecNode) (Value, types.Type) {
 			}
 		}
 		if n.Kind == "forall" {
+			if c.hyp && !c.underNot && len(bvs) == 1 && c.e.mode == ModeInt {
+				return withTriggerVariants(bvs[0], Implies(And(ranges...), body.(*Node))), types.Typ[types.Bool]
+			}
 			return Forall(bvs, Implies(And(ranges...), body.(*Node))), types.Typ[types.Bool]
 		}
 		return Exists(bvs, And(And(ranges...), body.(*Node))), types.Typ[types.Bool]
@@ -239,10 +254,17 @@ func (c *SpecCtx) expr(ex ast.Expr, sn *SpecNode) (Value, types.Type) {
 	case *ast.Ident:
 		return c.ident(x.Name, sn)
 	case *ast.UnaryExpr:
+		if x.Op == token.NOT {
+			saved := c.underNot
+			c.underNot = true
+			v, t := c.expr(x.X, sn)
+			c.underNot = saved
+			return Not(v.(*Node)), t
+		}
 		v, t := c.expr(x.X, sn)
 		switch x.Op {
 		case token.NOT:
-			return Not(v.(*Node)), t
+			return Not(v.(*Node)), t // (polarity under ! is not tracked: `also` parts are skipped there)
 		case token.SUB:
 			if cv, ok := v.(*ConstV); ok {
 				return &ConstV{new(big.Int).Neg(cv.V)}, nil
@@ -821,6 +843,8 @@ func (c *SpecCtx) callExpr(x *ast.CallExpr, sn *SpecNode) (Value, types.Type) {
 				}
 			}
 			return acc, rt
+		case "heapframe":
+			return c.heapFrame(x, sn), types.Typ[types.Bool]
 		case "heapsame":
 			// heapsame("H:T.f") – the named heap is unchanged since old
 			return c.heapSame(x, sn), types.Typ[types.Bool]
@@ -874,6 +898,25 @@ func (c *SpecCtx) callExpr(x *ast.CallExpr, sn *SpecNode) (Value, types.Type) {
 	return nil, nil
 }
 
+// heapframe("A:uint8"): objects that existed at function entry are unchanged in the named heap.
+func (c *SpecCtx) heapFrame(x *ast.CallExpr, sn *SpecNode) *Node {
+	bl, ok := x.Args[0].(*ast.BasicLit)
+	if !ok {
+		c.fail("heapframe needs a string literal")
+	}
+	name, _ := strconv.Unquote(bl.Value)
+	sortS, ok := c.e.heapSorts[name]
+	if !ok {
+		return tTrue
+	}
+	cur, old := c.e.heap(c.st, name, sortS), c.e.heap(c.e.entry, name, sortS)
+	if cur == old {
+		return tTrue
+	}
+	r := BoundVar("r!hf", arrayKeySort(sortS))
+	return Forall([]*Node{r}, Implies(And(App("<=", "Bool", IntLit(0), r), App("<", "Bool", r, c.e.allocTerm(c.e.entry))), Eq(Select(cur, r), Select(old, r))))
+}
+
 func (c *SpecCtx) heapSame(x *ast.CallExpr, sn *SpecNode) *Node {
 	bl, ok := x.Args[0].(*ast.BasicLit)
 	if !ok {
@@ -921,6 +964,12 @@ func (c *SpecCtx) applyPred(p *Pred, args []ast.Expr, sn *SpecNode) (Value, type
 	}
 	c.depth++
 	r, t := c.eval(p.Body)
+	if p.Also != nil && c.hyp && !c.underNot {
+		// consequence of the body (checked once as pred:<name>/also): stated too where the
+		// predicate is a hypothesis, as an instantiation aid for the solver
+		a, _ := c.eval(p.Also)
+		r = And(r.(*Node), a.(*Node))
+	}
 	c.depth--
 	for k, v := range saved {
 		if v == nil {
